@@ -491,6 +491,28 @@ func main() {
 			active[k] = v
 		}
 	}
+	// a class whose finding is listed as fixed is no longer assumed (unless -assume-known was given explicitly)
+	explicit := false
+	flag.Visit(func(f *flag.Flag) {
+		if f.Name == "assume-known" {
+			explicit = true
+		}
+	})
+	if !explicit {
+		fixedKey := map[string]string{"D42": "bnpl-subject-semicolon", "D44": "comment-cr"}
+		for _, f := range fsAll {
+			if f.Status != "fixed" || (f.Property != "C08" && f.Property != "C07") {
+				continue
+			}
+			for _, p := range []string{f.Predicate, fixedKey[f.Key]} {
+				if assumed[p] {
+					delete(assumed, p)
+					rep.Count("class-listed-as-fixed-not-assumed:" + p)
+					fmt.Println("c08: NOTE", p, "is listed as fixed ("+f.Key+"): failures inside the class are reported")
+				}
+			}
+		}
+	}
 	var notes []string
 	for _, p := range vh.SortedKeys(assumed) {
 		if _, ok := active[p]; !ok {
